@@ -2,6 +2,7 @@ package props
 
 import (
 	"fmt"
+	"github.com/cosmos/cosmos-sdk/codec"
 	"sort"
 	"strings"
 
@@ -102,6 +103,7 @@ func runC15(rc *RunCtx) {
 	}
 
 	// invariant + record agreement, evaluated after every transaction
+	pgTick := 0
 	check := func(after string) bool {
 		rc.Eval(1)
 		bal := c.Balance(escrow, "ujkl")
@@ -160,6 +162,11 @@ func runC15(rc *RunCtx) {
 			if !got[a] {
 				rc.Fail("C15/provider-record-missing", "after %s: %s registered but has no provider record", after, who(a))
 			}
+		}
+		// a client paging through the provider listing sees every provider exactly once (paging.go), every 4th check
+		pgTick++
+		if pgTick%4 == 0 {
+			checkPaging(rc, c, []listQuery{{Path: "/canine_chain.storage.Query/AllProviders", Req: func() codec.ProtoMarshaler { return &storagetypes.QueryAllProviders{} }, Resp: &storagetypes.QueryAllProvidersResponse{}}}, pgTick/4)
 		}
 		return true
 	}
